@@ -81,14 +81,16 @@ func (s rbsSig) traits() string {
 	return strings.Join(t, "+")
 }
 
-// decisive keeps, for a failing probe, the traits that select ti's arity code path: a
-// rest parameter followed by trailing positionals dominates everything else, and an
-// untyped return value matters only for the too-many-arguments check.
+// decisive keeps, for a failing probe, the traits that select ti's arity code path:
+// trailing positionals (required parameters after optional ones or after the rest
+// parameter) dominate everything else, and an untyped return value matters only for the
+// too-many-arguments check.
 func decisive(rel, traits string) string {
 	has := func(x string) bool { return strings.Contains("+"+traits+"+", "+"+x+"+") }
 	switch {
-	case has("rest") && (has("trail") || has("post")):
-		return "rest-then-trailing"
+	case has("trail") || has("post"):
+		// required positionals after optional ones or after the rest parameter
+		return "trailing-positional"
 	case has("rest") && has("reqkw"):
 		return rel + ":rest+reqkw"
 	case rel == "above-max" && has("ret-untyped"):
@@ -178,7 +180,11 @@ func genSig(r *Rng, untyped bool) rbsSig {
 	s := rbsSig{Req: r.Intn(4), Opt: r.Intn(3), Untyped: untyped, RetUntyped: untyped && r.Chance(1, 4)}
 	if r.Chance(1, 4) {
 		s.Rest = true
-		s.Trail = r.Intn(3)
+	}
+	// RBS lists required positionals that follow optional ones (or the rest parameter) as
+	// trailing positionals: (?Integer, String) has one, with or without a rest parameter
+	if (s.Rest || s.Opt > 0) && r.Chance(1, 2) {
+		s.Trail = r.Range(1, 2)
 	}
 	if r.Chance(1, 2) {
 		perm := append([]string(nil), kwNames...)
@@ -248,13 +254,25 @@ func genRBS(r *Rng) ([]byte, []rbsMethodModel) {
 			if r.Chance(1, 4) {
 				comment = map[string]any{"string": "<!-- rdoc-file=x -->\nDoes " + mname + ".\n"}
 			}
+			// aliases of this method: some written before their target (forward), some after
+			nalias := 0
+			if r.Chance(1, 3) {
+				nalias = r.Range(1, 3)
+			}
+			var after []any
+			for a := 0; a < nalias; a++ {
+				al := map[string]any{"member": "alias", "new_name": fmt.Sprintf("%s_alias%d", mname, a), "old_name": mname, "kind": mk}
+				if r.Chance(1, 2) {
+					members = append(members, al)
+				} else {
+					after = append(after, al)
+				}
+			}
 			members = append(members, map[string]any{"member": "method_definition", "name": mname, "kind": mk,
 				"visibility": r.Pick([]string{"public", "public", "public", "private"}), "comment": comment, "overloads": overloads})
+			members = append(members, after...)
 			models = append(models, model)
 			names = append(names, mname)
-			if r.Chance(1, 5) {
-				members = append(members, map[string]any{"member": "alias", "new_name": mname + "_alias", "old_name": mname, "kind": mk})
-			}
 		}
 		hasNested := false
 		for x := 0; x < r.Intn(3); x++ {
@@ -948,7 +966,7 @@ func cTraits(m cMethodModel) string {
 	if strings.Contains(src, "POST(") {
 		t = append(t, "post")
 	}
-	if strings.Contains(src, "BLOCK()") || strings.Contains(m.Body, "&") {
+	if (strings.Contains(src, "BLOCK()") || strings.Contains(m.Body, "&")) && (strings.Contains(src, "REST()") || strings.Contains(m.Body, "*")) {
 		t = append(t, "trail") // a block parameter is emitted after the rest parameter
 	}
 	if m.Style == "mrbc_define_method" {
